@@ -5,6 +5,7 @@ import jwsgen as G
 from props.c03 import compare, strip, nontrivial as nt3
 
 ID = "C01"
+CORPUS_FIRST = True
 RULE = ("valid tokens for every signature algorithm x key (jose-signed and Lean-signed, flattened and general), then "
         "the mutation stream: every character position of the signature (stride for RSA in quick), position classes of "
         "payload and protected, structural edits (member deletion, empty, wrong JSON type, signature swap, alg "
